@@ -184,3 +184,104 @@ V(id='c05-benign-hash-refactor', prop='C05', file='mpmath/libmp/libmpc.py',
   old="        if h == -1: h = -2\n        return int(h)",
   new="        if h == -1:\n            return -2\n        return int(h)",
   expect='silent')
+
+V(id='c11-setdps-early-out', prop='C11', file='mpmath/ctx_mp_python.py',
+  old="    def _set_dps(ctx, n):\n",
+  new="    def _set_dps(ctx, n):\n        if n == ctx._dps:\n            return\n",
+  expect='fire:A-R6:_set_dps')
+V(id='c11-setprec-conditional-store', prop='C11', file='mpmath/ctx_iv.py',
+  old="    def _set_prec(ctx, n):\n        ctx._prec[0] = max(1, int(n))\n        ctx._dps = prec_to_dps(n)",
+  new="    def _set_prec(ctx, n):\n        ctx._prec[0] = max(1, int(n))\n        if n > 3:\n            ctx._dps = prec_to_dps(n)",
+  expect='fire:A-R6:_set_prec')
+
+# ---------------------------------------------------------------- C33 -------
+V(id='c33-logint-gate-reversed', prop='C33', file='mpmath/libmp/libelefun.py',
+  old="        if vprec >= prec:\n            return value >> (vprec - prec)",
+  new="        if vprec <= prec:\n            return value >> (vprec - prec)",
+  expect='fire:D-R1a:log_int_fixed')
+V(id='c33-logint-gate-dropped', prop='C33', file='mpmath/libmp/libelefun.py',
+  old="        if vprec >= prec:\n            return value >> (vprec - prec)",
+  new="        return value >> (vprec - prec)",
+  expect='fire:D-R1a:log_int_fixed')
+V(id='c33-logint-shift-wrong', prop='C33', file='mpmath/libmp/libelefun.py',
+  old="            return value >> (vprec - prec)", new="            return value >> (vprec - wp)",
+  expect='fire:D-R1a:log_int_fixed')
+V(id='c33-zetaint-gate-reversed', prop='C33', file='mpmath/libmp/gammazeta.py',
+  old="    if s in zeta_int_cache and zeta_int_cache[s][0] >= wp:",
+  new="    if s in zeta_int_cache and zeta_int_cache[s][0] <= wp:",
+  expect='fire:D-R1a:mpf_zeta_int')
+V(id='c33-memoize-no-gate', prop='C33', file='mpmath/ctx_base.py',
+  old="                if cprec >= prec:\n                    return +cvalue",
+  new="                return +cvalue",
+  expect='fire:D-R1a:f_cached')
+V(id='c33-cmemo-gate-reversed', prop='C33', file='mpmath/functions/bessel.py',
+  old="        if p >= prec:\n            return +v", new="        if p <= prec:\n            return +v",
+  expect='fire:D-R1a:f_wrapped')
+V(id='c33-stieltjes-untagged', prop='C33', file='mpmath/functions/zeta.py',
+  old="            if prec >= ctx.prec:\n                return +s", new="            return +s",
+  expect='fire:D-R1a:stieltjes')
+V(id='c33-bernoulli-key-no-prec', prop='C33', file='mpmath/libmp/gammazeta.py',
+  old="    cached = bernoulli_cache.get(wp)", new="    cached = bernoulli_cache.get(0)",
+  expect='fire:D-R1b:mpf_bernoulli')
+V(id='c33-atan-key-no-prec', prop='C33', file='mpmath/libmp/libelefun.py',
+  edits=[("    if (n, prec2) in atan_taylor_cache:\n        a, atan_a = atan_taylor_cache[n, prec2]",
+          "    if n in atan_taylor_cache:\n        a, atan_a = atan_taylor_cache[n]"),
+         ("        atan_taylor_cache[n, prec2] = (a, atan_a)", "        atan_taylor_cache[n] = (a, atan_a)")],
+  expect='fire:D-R1b:atan_taylor_get_cached')
+V(id='c33-quad-nodes-key-no-prec', prop='C33', file='mpmath/calculus/quadrature.py',
+  old="        key = (a, b, degree, prec)", new="        key = (a, b, degree)",
+  expect='fire:D-R1b:get_nodes')
+V(id='c33-gamma-taylor-reuse-lower', prop='C33', file='mpmath/libmp/gammazeta.py',
+  old="        if cprec > prec:\n            coeffs", new="        if cprec != prec:\n            coeffs",
+  expect='fire:D-R1b:gamma_taylor_coefficients')
+V(id='c33-cossin-no-bypass', prop='C33', file='mpmath/libmp/libelefun.py',
+  old="    if prec > COS_SIN_CACHE_PREC:\n        return exponential_series(x, prec, 2)\n", new="",
+  expect='fire:D-R1c:cos_sin_basecase')
+V(id='c33-intcache-poisoned', prop='C33', file='mpmath/libmp/libmpf.py',
+  old="    return from_man_exp(n, 0, prec, rnd)\n\ndef to_man_exp",
+  new="    v = from_man_exp(n, 0, prec, rnd)\n    if -65536 < n < 65536:\n        int_cache[n] = v\n    return v\n\ndef to_man_exp",
+  expect='fire:D-R1d:from_int')
+V(id='c33-constmemo-tag-first', prop='C33', file='mpmath/libmp/libelefun.py',
+  old="        f.memo_val = f(newprec, **kwargs)\n        f.memo_prec = newprec\n",
+  new="        f.memo_prec = newprec\n        f.memo_val = f(newprec, **kwargs)\n",
+  expect='fire:D-R2:constant_memo.g')
+V(id='c33-constmemo-gate-reversed', prop='C33', file='mpmath/libmp/libelefun.py',
+  old="        if prec <= memo_prec:", new="        if prec >= memo_prec:",
+  expect='fire:D-R2:constant_memo.g')
+V(id='c33-constmemo-shift', prop='C33', file='mpmath/libmp/libelefun.py',
+  old="            return f.memo_val >> (memo_prec-prec)", new="            return f.memo_val >> (memo_prec-prec-1)",
+  expect='fire:D-R2:constant_memo.g')
+V(id='c33-lu-no-tag-gate', prop='C33', file='mpmath/matrices/linalg.py',
+  old="        if use_cache and isinstance(A, ctx.matrix) and A._LU and \\\n                A._LU_prec >= ctx.prec:",
+  new="        if use_cache and isinstance(A, ctx.matrix) and A._LU:",
+  expect='fire:D-LU:LU_decomp')
+V(id='c33-setrows-no-reset', prop='C33', file='mpmath/matrices/matrices.py',
+  old="        self.__rows = value\n        self._LU = None\n", new="        self.__rows = value\n",
+  expect='fire:D-R4:__setrows')
+V(id='c33-setitem-reset-only-single', prop='C33', file='mpmath/matrices/matrices.py',
+  old="                del self.__data[key]\n\n        if self._LU:\n            self._LU = None\n        return",
+  new="                del self.__data[key]\n            if self._LU:\n                self._LU = None\n        return",
+  expect='fire:D-R4:__setitem__')
+V(id='c33-coulomb-shared-default', prop='C33', file='mpmath/functions/bessel.py',
+  old="def coulombc(ctx, l, eta):\n    # cache per context: the values are numbers of this context\n    _cache = ctx._misc_const_cache\n",
+  new="def coulombc(ctx, l, eta, _cache={}):\n",
+  expect='fire:D-R3:coulombc')
+V(id='c33-memoize-key-drops-kwargs', prop='C33', file='mpmath/ctx_base.py',
+  old="                key = args, tuple(kwargs.items())", new="                key = args, tuple(sorted(kwargs))",
+  expect='fire:D-R6:f_cached')
+V(id='c33-new-untriaged-cache', prop='C33', file='mpmath/libmp/libelefun.py',
+  old="def log_int_fixed(n, prec, ln2=None):",
+  new="_exp_cache = {}\ndef _exp_cached(x, prec):\n    if x not in _exp_cache:\n        _exp_cache[x] = exp_basecase(x, prec)\n    return _exp_cache[x]\n\ndef log_int_fixed(n, prec, ln2=None):",
+  expect='analysis-error:untriaged')
+V(id='c33-benign-rename-tag', prop='C33', file='mpmath/libmp/libelefun.py',
+  old="        value, vprec = log_int_cache[n]\n        if vprec >= prec:\n            return value >> (vprec - prec)",
+  new="        cached_value, stored = log_int_cache[n]\n        if prec <= stored:\n            return cached_value >> (stored - prec)",
+  expect='silent')
+V(id='c33-benign-lu-reset-unconditional', prop='C33', file='mpmath/matrices/matrices.py',
+  old="        if self._LU:\n            self._LU = None\n        return", new="        self._LU = None\n        return",
+  expect='silent')
+
+V(id='c05-intcache-poisoned', prop='C05', file='mpmath/libmp/libmpf.py',
+  old="    return from_man_exp(n, 0, prec, rnd)\n\ndef to_man_exp",
+  new="    v = from_man_exp(n, 0, prec, rnd)\n    if -65536 < n < 65536:\n        int_cache[n] = v\n    return v\n\ndef to_man_exp",
+  expect='fire:G-R4:from_int')
